@@ -29,6 +29,7 @@ EXPLANATION = (
     ' Round 6: (15) ALIAS: the coords / shortcuts dictionaries a canvas edits in place (set_cursor, overlay, _drop_trimmed_cursor) only ever hold an object of its own - CompositeCanvas(canv) sharing canv.coords would write the top widget\'s cursor into the cached bottom canvas; Frame.keypress body size is compared with render (exception removed).'
     ' (16) every screen-order use of ListBox\'s bottom-up fill_above reverses it first; (17) a computed cursor column rejected on one side of the widget is rejected on the other side too.'
     ' Round 7: (18) FRESHLIST: no in-place edit of a shard list shared with a (cached) child canvas - a child that silently gains padding rows is drawn at another height than rows() / get_cursor_coords work with; (19) HIDDEN-DEP: a rendering that skips a child declares the dependency on every child (shared with C06.8).'
+    " Round 8: (20) BOUND: calc_line_pos() never returns a segment's half-open end offset."
 )
 NOT_DECIDED = (
     "Agreement with the rendered canvas cursor (needs canvas semantics), loops of Pile/Columns/ListBox that accumulate offsets (equivalence of different loop shapes is not syntactic), "
